@@ -158,7 +158,11 @@ func runTestFile(fileName string) {
 	}
 
 	report := test.Run()
-	if report == nil || report.Status() != test.TEST_SUCCESS {
+	if report == nil {
+		os.Exit(1)
+	}
+	switch report.Status() {
+	case test.TEST_FAILED, test.TEST_ERROR:
 		os.Exit(1)
 	}
 }
